@@ -272,6 +272,9 @@ func (m *Machine) Op(name, recv, args string, f func() string) string {
 	m.emit("op\t" + name + "\t" + recv + "\t" + args + "\t" + obs)
 	m.stats.Op(name, obs)
 	m.Snaps()
+	if len(heldAlarms) > 0 {
+		m.flushHeldAlarms()
+	}
 	return obs
 }
 
@@ -379,10 +382,10 @@ func (m *Machine) Empty(r string) string {
 	return m.Op("empty", r, "", func() string { return btok(m.L(r).Empty()) })
 }
 func (m *Machine) String(r string) string {
-	return m.Op("string", r, "", func() string { return "s" + hx(m.L(r).String()) })
+	return m.Op("string", r, "", func() string { return "s" + hx(holdString(m.L(r).String(), "List.String")) })
 }
 func (m *Machine) FormatString(r string, n int) string {
-	return m.Op("fmtstr", r, itok(n), func() string { return "s" + hx(m.L(r).FormatString(n)) })
+	return m.Op("fmtstr", r, itok(n), func() string { return "s" + hx(holdString(m.L(r).FormatString(n), "List.FormatString")) })
 }
 func (m *Machine) Slice(r string) string {
 	return m.Op("slice", r, "", func() string { return m.tokVals(m.L(r).Slice()) })
@@ -761,10 +764,10 @@ func (m *Machine) OEmpty(r string) string {
 	return m.Op("oempty", r, "", func() string { return btok(m.O(r).Empty()) })
 }
 func (m *Machine) OString(r string) string {
-	return m.Op("ostring", r, "", func() string { return "s" + hx(m.O(r).String()) })
+	return m.Op("ostring", r, "", func() string { return "s" + hx(holdString(m.O(r).String(), "Object.String")) })
 }
 func (m *Machine) OFormatString(r string, n int) string {
-	return m.Op("ofmtstr", r, itok(n), func() string { return "s" + hx(m.O(r).FormatString(n)) })
+	return m.Op("ofmtstr", r, itok(n), func() string { return "s" + hx(holdString(m.O(r).FormatString(n), "Object.FormatString")) })
 }
 func (m *Machine) Dict(r string) string {
 	return m.Op("dict", r, "", func() string {
